@@ -423,19 +423,19 @@ theorem genLoopR_any (mask : Nat) (fixed : Bool) (raw : Option Bytes) (sp : Opti
       obtain ⟨htodo, _, hrest⟩ := scanSeg_spec todo _ _ _ _ hs
       have hwfseg : ∀ s ∈ seg, Sliced.WF s := fun x hx => hwf x (by rw [htodo]; exact List.mem_append_left _ hx)
       have hwfrest : ∀ s ∈ rest, Sliced.WF s := fun x hx => hwf x (by rw [htodo]; exact List.mem_append_right _ hx)
-      obtain ⟨herr, us0, h1, h2, h3, h4, h5⟩ := insertSliced_struct mask fixed seg hwfseg pLeft 0 0
-      cases he : (insertSliced mask fixed pLeft 0 0 seg).err with
+      obtain ⟨herr, us0, h1, h2, h3, h4, h5⟩ := insertSliced_struct mask fixed seg hwfseg pLeft (segStart lastLine) 0
+      cases he : (insertSliced mask fixed pLeft (segStart lastLine) 0 seg).err with
       | some e => simp only []; exact herr e he
       | none =>
         simp only []
         -- the region after the sliced segment
-        have R0 : Region fixed pLeft lastDu (insertSliced mask fixed pLeft 0 0 seg).out
-            (nextLastDu true lastDu (insertSliced mask fixed pLeft 0 0 seg).lastDu)
-            (insertSliced mask fixed pLeft 0 0 seg).pLeft us0 := by
+        have R0 : Region fixed pLeft lastDu (insertSliced mask fixed pLeft (segStart lastLine) 0 seg).out
+            (nextLastDu true lastDu (insertSliced mask fixed pLeft (segStart lastLine) 0 seg).lastDu)
+            (insertSliced mask fixed pLeft (segStart lastLine) 0 seg).pLeft us0 := by
           have hls : lastSize us0 ≤ 46 := lastSize_le us0 46 (fun u hu => (h2 u hu).1)
           exact region_rebase ⟨h1, fun u hu => ⟨by have := (h2 u hu).1; omega, (h2 u hu).2⟩, h3, h4, h5,
             by intro _ h; omega⟩ lastDu
-        by_cases hr : (insertSliced mask fixed pLeft 0 0 seg).rest ≠ []
+        by_cases hr : (insertSliced mask fixed pLeft (segStart lastLine) 0 seg).rest ≠ []
         · rw [if_pos hr]; exact ⟨us0, _, R0⟩
         · rw [if_neg hr]
           cases rest with
@@ -447,10 +447,10 @@ theorem genLoopR_any (mask : Nat) (fixed : Bool) (raw : Option Bytes) (sp : Opti
             simp only []
             by_cases hm : mask &&& SL_VBI625 = 0
             · rw [if_pos hm]
-              have := ih (insertSliced mask fixed pLeft 0 0 seg).pLeft ll
-                (nextLastDu true lastDu (insertSliced mask fixed pLeft 0 0 seg).lastDu) st rest' hfu' hwfrest' hst
-              cases hrec : genLoopR true mask fixed raw sp fuel (insertSliced mask fixed pLeft 0 0 seg).pLeft ll
-                  (nextLastDu true lastDu (insertSliced mask fixed pLeft 0 0 seg).lastDu) st rest' with
+              have := ih (insertSliced mask fixed pLeft (segStart lastLine) 0 seg).pLeft ll
+                (nextLastDu true lastDu (insertSliced mask fixed pLeft (segStart lastLine) 0 seg).lastDu) st rest' hfu' hwfrest' hst
+              cases hrec : genLoopR true mask fixed raw sp fuel (insertSliced mask fixed pLeft (segStart lastLine) 0 seg).pLeft ll
+                  (nextLastDu true lastDu (insertSliced mask fixed pLeft (segStart lastLine) 0 seg).lastDu) st rest' with
               | error e => rw [hrec] at this; obtain ⟨e1, e2⟩ := e; simpa using this
               | ok y =>
                 obtain ⟨o, du', left, st''⟩ := y
@@ -471,7 +471,7 @@ theorem genLoopR_any (mask : Nat) (fixed : Bool) (raw : Option Bytes) (sp : Opti
                 obtain ⟨ho, hend, hspl⟩ := validSp_bounds sp' hv
                 rw [if_neg (by omega)]
                 have hline : rawLine.line < 2 ^ 32 := (hwfrest rawLine (List.mem_cons_self ..)).2.1
-                cases hir : insertRaw (insertSliced mask fixed pLeft 0 0 seg).pLeft smp fixed VIDEOSTD_625 rawLine.line
+                cases hir : insertRaw (insertSliced mask fixed pLeft (segStart lastLine) 0 seg).pLeft smp fixed VIDEOSTD_625 rawLine.line
                     ((sp'.offset + 2 ^ 32 - BT601_625_OFFSET) % 2 ^ 32) sp'.spl true with
                 | error e =>
                   simp only []
@@ -479,16 +479,16 @@ theorem genLoopR_any (mask : Nat) (fixed : Bool) (raw : Option Bytes) (sp : Opti
                 | ok rr =>
                   simp only []
                   obtain ⟨usr, Rr0⟩ := insertRaw_struct _ _ _ _ hline _ _ rr hir
-                  have Rr := region_rebase Rr0 (nextLastDu true lastDu (insertSliced mask fixed pLeft 0 0 seg).lastDu)
+                  have Rr := region_rebase Rr0 (nextLastDu true lastDu (insertSliced mask fixed pLeft (segStart lastLine) 0 seg).lastDu)
                   have R01 := region_append R0 Rr
                   by_cases hrl : rr.rest.length > 0
                   · rw [if_pos hrl]; exact ⟨us0 ++ usr, _, R01⟩
                   · rw [if_neg hrl]
                     have := ih rr.pLeft ll
-                      (nextLastDu true (nextLastDu true lastDu (insertSliced mask fixed pLeft 0 0 seg).lastDu) rr.lastDu)
+                      (nextLastDu true (nextLastDu true lastDu (insertSliced mask fixed pLeft (segStart lastLine) 0 seg).lastDu) rr.lastDu)
                       { st with left := 0 } rest' hfu' hwfrest' rfl
                     cases hrec : genLoopR true mask fixed (some rawb) (some sp') fuel rr.pLeft ll
-                        (nextLastDu true (nextLastDu true lastDu (insertSliced mask fixed pLeft 0 0 seg).lastDu) rr.lastDu)
+                        (nextLastDu true (nextLastDu true lastDu (insertSliced mask fixed pLeft (segStart lastLine) 0 seg).lastDu) rr.lastDu)
                         { st with left := 0 } rest' with
                     | error e => rw [hrec] at this; obtain ⟨e1, e2⟩ := e; simpa using this
                     | ok y =>
